@@ -20,6 +20,7 @@ Shadow(n) == LET r0 == IterateV("v0", sb0 \o SubSeq(stream, 1, n), ss0)
              IN /\ sb0' = r0[1] /\ ss0' = r0[2] /\ ok0' = ok0 \cup Good(r0[2])
                 /\ sb1' = r1[1] /\ ss1' = r1[2] /\ ok1' = ok1 \cup Good(r1[2])
 HNext == \/ Send /\ h' = Append(h, [a |-> "send", i |-> next, toks |-> <<>>]) /\ Keep
+         \/ EchoRest /\ h' = Append(h, [a |-> "echorest", i |-> call, toks |-> <<>>]) /\ Keep
          \/ Fetch /\ h' = Append(h, [a |-> "fetch", i |-> call, toks |-> <<>>]) /\ Keep
          \/ Timeout /\ h' = Append(h, [a |-> "timeout", i |-> call, toks |-> <<>>]) /\ Keep
          \/ \E i \in 1..N : Reply(i) /\ h' = Append(h, [a |-> "reply", i |-> i, toks |-> <<>>]) /\ Keep
@@ -32,7 +33,7 @@ Outcome(i) == IF got[i] = TimedOut THEN "timeout" ELSE IF got[i] = M(i) THEN "ok
 Now == {i \in 1..N : pol[i] = "now"}
 Kills == (IF Now \subseteq ok0 THEN {} ELSE {"v0"}) \cup (IF Now \subseteq ok1 THEN {} ELSE {"v1"})
 Emit == Terminal => PrintT("SCN " \o ToJson([n |-> N, echo |-> Echo, pol |-> pol, h |-> h, outcome |-> [i \in 1..N |-> Outcome(i)],
-                                             kills |-> Kills, notifs |-> Notifs, pre |-> Pre,
+                                             kills |-> Kills, notifs |-> Notifs, pre |-> Pre, splitecho |-> SplitEcho,
                                              nstored |-> [k \in 1..Notifs |-> \E j \in 1..Len(store[0]) : store[0][j] = NM(k)],
                                              nfiled |-> Len(store[0])]))
 =============================================================================
